@@ -339,6 +339,15 @@ package modbus
 
 //@ iface modbus.RegistersResponse.AsRegisters(requestStartAddress uint16) (res *packet.Registers, err error)
 //@   modifies nothing
+//@   alias res.data := self.(*packet.ReadHoldingRegistersResponseTCP).Data if err == nil && dyntype(self) == *packet.ReadHoldingRegistersResponseTCP
+//@   alias res.data := self.(*packet.ReadHoldingRegistersResponseRTU).Data if err == nil && dyntype(self) == *packet.ReadHoldingRegistersResponseRTU
+//@   alias res.data := self.(*packet.ReadInputRegistersResponseTCP).Data if err == nil && dyntype(self) == *packet.ReadInputRegistersResponseTCP
+//@   alias res.data := self.(*packet.ReadInputRegistersResponseRTU).Data if err == nil && dyntype(self) == *packet.ReadInputRegistersResponseRTU
+//@   ensures dyntype(self) == *packet.ReadHoldingRegistersResponseTCP && self.(*packet.ReadHoldingRegistersResponseTCP) != nil ==> (err == nil <==> len(self.(*packet.ReadHoldingRegistersResponseTCP).Data) >= 2 && len(self.(*packet.ReadHoldingRegistersResponseTCP).Data)%2 == 0)
+//@   ensures dyntype(self) == *packet.ReadHoldingRegistersResponseRTU && self.(*packet.ReadHoldingRegistersResponseRTU) != nil ==> (err == nil <==> len(self.(*packet.ReadHoldingRegistersResponseRTU).Data) >= 2 && len(self.(*packet.ReadHoldingRegistersResponseRTU).Data)%2 == 0)
+//@   ensures dyntype(self) == *packet.ReadInputRegistersResponseTCP && self.(*packet.ReadInputRegistersResponseTCP) != nil ==> (err == nil <==> len(self.(*packet.ReadInputRegistersResponseTCP).Data) >= 2 && len(self.(*packet.ReadInputRegistersResponseTCP).Data)%2 == 0)
+//@   ensures dyntype(self) == *packet.ReadInputRegistersResponseRTU && self.(*packet.ReadInputRegistersResponseRTU) != nil ==> (err == nil <==> len(self.(*packet.ReadInputRegistersResponseRTU).Data) >= 2 && len(self.(*packet.ReadInputRegistersResponseRTU).Data)%2 == 0)
+//@   ensures err == nil ==> res.defaultByteOrder == packet.BigEndianHighWordFirst || !(dyntype(self) == *packet.ReadHoldingRegistersResponseTCP || dyntype(self) == *packet.ReadHoldingRegistersResponseRTU || dyntype(self) == *packet.ReadInputRegistersResponseTCP || dyntype(self) == *packet.ReadInputRegistersResponseRTU)
 //@   ensures err != nil <==> res == nil
 //@   ensures err == nil ==> validRegs(res) && res.startAddress == requestStartAddress
 //@   ghostset asRegsStart := requestStartAddress
@@ -362,7 +371,15 @@ package modbus
 //@   safety[C05,C10]
 //@   modifies[C05,C13] nothing
 //@   modifies asRegsStart, asRegsRes
-//@   ensures[C05] asRegsStart == r.StartAddress
+//@   alias asRegsRes.data := response.(*packet.ReadHoldingRegistersResponseTCP).Data if asRegsRes != nil && dyntype(response) == *packet.ReadHoldingRegistersResponseTCP
+//@   alias asRegsRes.data := response.(*packet.ReadHoldingRegistersResponseRTU).Data if asRegsRes != nil && dyntype(response) == *packet.ReadHoldingRegistersResponseRTU
+//@   alias asRegsRes.data := response.(*packet.ReadInputRegistersResponseTCP).Data if asRegsRes != nil && dyntype(response) == *packet.ReadInputRegistersResponseTCP
+//@   alias asRegsRes.data := response.(*packet.ReadInputRegistersResponseRTU).Data if asRegsRes != nil && dyntype(response) == *packet.ReadInputRegistersResponseRTU
+//@   ensures[C05] dyntype(response) == *packet.ReadHoldingRegistersResponseTCP && response.(*packet.ReadHoldingRegistersResponseTCP) != nil ==> (asRegsRes != nil <==> len(response.(*packet.ReadHoldingRegistersResponseTCP).Data) >= 2 && len(response.(*packet.ReadHoldingRegistersResponseTCP).Data)%2 == 0) && (asRegsRes != nil ==> asRegsRes.defaultByteOrder == packet.BigEndianHighWordFirst)
+//@   ensures[C05] dyntype(response) == *packet.ReadHoldingRegistersResponseRTU && response.(*packet.ReadHoldingRegistersResponseRTU) != nil ==> (asRegsRes != nil <==> len(response.(*packet.ReadHoldingRegistersResponseRTU).Data) >= 2 && len(response.(*packet.ReadHoldingRegistersResponseRTU).Data)%2 == 0) && (asRegsRes != nil ==> asRegsRes.defaultByteOrder == packet.BigEndianHighWordFirst)
+//@   ensures[C05] dyntype(response) == *packet.ReadInputRegistersResponseTCP && response.(*packet.ReadInputRegistersResponseTCP) != nil ==> (asRegsRes != nil <==> len(response.(*packet.ReadInputRegistersResponseTCP).Data) >= 2 && len(response.(*packet.ReadInputRegistersResponseTCP).Data)%2 == 0) && (asRegsRes != nil ==> asRegsRes.defaultByteOrder == packet.BigEndianHighWordFirst)
+//@   ensures[C05] dyntype(response) == *packet.ReadInputRegistersResponseRTU && response.(*packet.ReadInputRegistersResponseRTU) != nil ==> (asRegsRes != nil <==> len(response.(*packet.ReadInputRegistersResponseRTU).Data) >= 2 && len(response.(*packet.ReadInputRegistersResponseRTU).Data)%2 == 0) && (asRegsRes != nil ==> asRegsRes.defaultByteOrder == packet.BigEndianHighWordFirst)
+//@   ensures[C05] asRegsStart == r.StartAddress && (asRegsRes != nil ==> asRegsRes.startAddress == r.StartAddress && validRegs(asRegsRes))
 //@   ensures[C05] asRegsRes == nil ==> err != nil && len(res) == 0
 //@   ensures[C05] asRegsRes != nil && (continueOnExtractionErrors || !anyRegFail(asRegsRes, r.Fields, len(r.Fields))) ==> len(res) == len(r.Fields)
 //@   ensures[C05] asRegsRes != nil && len(res) == len(r.Fields) ==> forall k in 0..len(res) :: res[k].Field == r.Fields[k] && (exWin(asRegsRes, r.Fields[k]) <==> res[k].Error == nil)
@@ -404,6 +421,14 @@ package modbus
 //@   safety[C05,C10]
 //@   modifies[C05,C13] nothing
 //@   modifies asRegsStart, asRegsRes
+//@   alias asRegsRes.data := response.(*packet.ReadHoldingRegistersResponseTCP).Data if asRegsRes != nil && dyntype(response) == *packet.ReadHoldingRegistersResponseTCP
+//@   alias asRegsRes.data := response.(*packet.ReadHoldingRegistersResponseRTU).Data if asRegsRes != nil && dyntype(response) == *packet.ReadHoldingRegistersResponseRTU
+//@   alias asRegsRes.data := response.(*packet.ReadInputRegistersResponseTCP).Data if asRegsRes != nil && dyntype(response) == *packet.ReadInputRegistersResponseTCP
+//@   alias asRegsRes.data := response.(*packet.ReadInputRegistersResponseRTU).Data if asRegsRes != nil && dyntype(response) == *packet.ReadInputRegistersResponseRTU
+//@   ensures[C05] dyntype(response) == *packet.ReadHoldingRegistersResponseTCP && response.(*packet.ReadHoldingRegistersResponseTCP) != nil ==> (asRegsRes != nil <==> len(response.(*packet.ReadHoldingRegistersResponseTCP).Data) >= 2 && len(response.(*packet.ReadHoldingRegistersResponseTCP).Data)%2 == 0) && (asRegsRes != nil ==> asRegsRes.defaultByteOrder == packet.BigEndianHighWordFirst)
+//@   ensures[C05] dyntype(response) == *packet.ReadHoldingRegistersResponseRTU && response.(*packet.ReadHoldingRegistersResponseRTU) != nil ==> (asRegsRes != nil <==> len(response.(*packet.ReadHoldingRegistersResponseRTU).Data) >= 2 && len(response.(*packet.ReadHoldingRegistersResponseRTU).Data)%2 == 0) && (asRegsRes != nil ==> asRegsRes.defaultByteOrder == packet.BigEndianHighWordFirst)
+//@   ensures[C05] dyntype(response) == *packet.ReadInputRegistersResponseTCP && response.(*packet.ReadInputRegistersResponseTCP) != nil ==> (asRegsRes != nil <==> len(response.(*packet.ReadInputRegistersResponseTCP).Data) >= 2 && len(response.(*packet.ReadInputRegistersResponseTCP).Data)%2 == 0) && (asRegsRes != nil ==> asRegsRes.defaultByteOrder == packet.BigEndianHighWordFirst)
+//@   ensures[C05] dyntype(response) == *packet.ReadInputRegistersResponseRTU && response.(*packet.ReadInputRegistersResponseRTU) != nil ==> (asRegsRes != nil <==> len(response.(*packet.ReadInputRegistersResponseRTU).Data) >= 2 && len(response.(*packet.ReadInputRegistersResponseRTU).Data)%2 == 0) && (asRegsRes != nil ==> asRegsRes.defaultByteOrder == packet.BigEndianHighWordFirst)
 //@   ensures[C05] implements(response, RegistersResponse) ==> regsExtractedA(r, continueOnExtractionErrors, res, err)
 //@   ensures[C05] implements(response, RegistersResponse) ==> regsExtractedB(r, res)
 //@   ensures[C05] !implements(response, RegistersResponse) && implements(response, CoilsResponse) ==> coilsExtractedA(r, continueOnExtractionErrors, res, err)
@@ -512,3 +537,68 @@ package modbus
 //@     invariant forall j in 0..len(batches) :: batches[j].Quantity != 0 ==> (batches[j].fields[0].Type == FieldTypeCoil) == coilFT(funcType)
 //@     invariant forall j in 0..len(result) :: reqOK(result[j], funcType)
 //@     invariant forall i in 0..len(fields) :: fieldOK(fields[i])
+
+// the eight public entry points of the request builder
+//@ func (b *Builder) ReadCoilsTCP() (res []BuilderRequest, err error)
+//@   requires b != nil
+//@   safety[C06,C10]
+//@   modifies sortCalls
+//@   ensures[C06] !(forall i in 0..len(b.fields) :: fieldOK(b.fields[i])) ==> err != nil
+//@   ensures[C06] err != nil ==> len(res) == 0
+//@   ensures[C06,C05] err == nil ==> forall j in 0..len(res) :: reqOK(res[j], 0)
+
+//@ func (b *Builder) ReadCoilsRTU() (res []BuilderRequest, err error)
+//@   requires b != nil
+//@   safety[C06,C10]
+//@   modifies sortCalls
+//@   ensures[C06] !(forall i in 0..len(b.fields) :: fieldOK(b.fields[i])) ==> err != nil
+//@   ensures[C06] err != nil ==> len(res) == 0
+//@   ensures[C06,C05] err == nil ==> forall j in 0..len(res) :: reqOK(res[j], 1)
+
+//@ func (b *Builder) ReadDiscreteInputsTCP() (res []BuilderRequest, err error)
+//@   requires b != nil
+//@   safety[C06,C10]
+//@   modifies sortCalls
+//@   ensures[C06] !(forall i in 0..len(b.fields) :: fieldOK(b.fields[i])) ==> err != nil
+//@   ensures[C06] err != nil ==> len(res) == 0
+//@   ensures[C06,C05] err == nil ==> forall j in 0..len(res) :: reqOK(res[j], 2)
+
+//@ func (b *Builder) ReadDiscreteInputsRTU() (res []BuilderRequest, err error)
+//@   requires b != nil
+//@   safety[C06,C10]
+//@   modifies sortCalls
+//@   ensures[C06] !(forall i in 0..len(b.fields) :: fieldOK(b.fields[i])) ==> err != nil
+//@   ensures[C06] err != nil ==> len(res) == 0
+//@   ensures[C06,C05] err == nil ==> forall j in 0..len(res) :: reqOK(res[j], 3)
+
+//@ func (b *Builder) ReadHoldingRegistersTCP() (res []BuilderRequest, err error)
+//@   requires b != nil
+//@   safety[C06,C10]
+//@   modifies sortCalls
+//@   ensures[C06] !(forall i in 0..len(b.fields) :: fieldOK(b.fields[i])) ==> err != nil
+//@   ensures[C06] err != nil ==> len(res) == 0
+//@   ensures[C06,C05] err == nil ==> forall j in 0..len(res) :: reqOK(res[j], 4)
+
+//@ func (b *Builder) ReadHoldingRegistersRTU() (res []BuilderRequest, err error)
+//@   requires b != nil
+//@   safety[C06,C10]
+//@   modifies sortCalls
+//@   ensures[C06] !(forall i in 0..len(b.fields) :: fieldOK(b.fields[i])) ==> err != nil
+//@   ensures[C06] err != nil ==> len(res) == 0
+//@   ensures[C06,C05] err == nil ==> forall j in 0..len(res) :: reqOK(res[j], 5)
+
+//@ func (b *Builder) ReadInputRegistersTCP() (res []BuilderRequest, err error)
+//@   requires b != nil
+//@   safety[C06,C10]
+//@   modifies sortCalls
+//@   ensures[C06] !(forall i in 0..len(b.fields) :: fieldOK(b.fields[i])) ==> err != nil
+//@   ensures[C06] err != nil ==> len(res) == 0
+//@   ensures[C06,C05] err == nil ==> forall j in 0..len(res) :: reqOK(res[j], 6)
+
+//@ func (b *Builder) ReadInputRegistersRTU() (res []BuilderRequest, err error)
+//@   requires b != nil
+//@   safety[C06,C10]
+//@   modifies sortCalls
+//@   ensures[C06] !(forall i in 0..len(b.fields) :: fieldOK(b.fields[i])) ==> err != nil
+//@   ensures[C06] err != nil ==> len(res) == 0
+//@   ensures[C06,C05] err == nil ==> forall j in 0..len(res) :: reqOK(res[j], 7)
